@@ -102,23 +102,25 @@ chk('C08', 'exploration',
 
 # ---- call-history clauses added after the state-dependent seed waves (appended to the level texts)
 _HIST = {
- 'C01': ' Call histories: every pair is additionally served by a second operator in the reverse order (quick) / by a brand-new operator (thorough) and must agree bitwise; all 20 ordered pairs of curves are served one after the other in fresh processes (values of the second curve against the oracle).',
+ 'C01': ' Call histories: every pair is additionally served by a second operator in the reverse order (quick) / by a brand-new operator (thorough) and judged against the oracle at the same tolerance (bitwise differences are only counted); all 20 ordered pairs of curves are served one after the other in fresh processes (values of the second curve against the oracle). Universes with very short end times (2^-9, 2^-11: only seam / corner couples survive).',
  'C03': ' Call histories: ordered pairs of problem/domain combinations set up and solved one after the other in fresh processes (residual means of the second).',
- 'C04': ' Call histories: second serial assembly on the same operator with a same-length trial list in another order; virtual-pool path.',
+ 'C04': ' Call histories: second serial assembly on the same operator with a same-length trial list in another order; square assembly with two different lists of equal length; both orientations entrywise; virtual-pool path.',
  'C06': ' Two marking steps on one mesh object (isotropic/anisotropic first step, every subset for N<=3(5), singletons up to N=6(8)).',
  'C07': ' Call histories: all 20 ordered pairs of curves served one after the other in fresh processes.',
- 'C08': ' Call histories: all 6 orders of the three domains served in one process (shared boundary segments).',
- 'C09': ' Call histories: successive pool calls on one estimator and one element list object with different residuals (virtual pool, one window).',
+ 'C08': ' Call histories: all 6 orders of the three domains served in one process (shared boundary segments). Exact clause also on wide time intervals away from 0 (end/start = 32, 32, 64; custom time grids).',
+ 'C09': ' Call histories: all ordered pairs of pool-path calls (weighted-L2, Sobolev) on one estimator and one element list object with different residuals (virtual pool, one window).',
  'C10': ' Query-refine-query histories on one mesh object on every transition and along the random walks.',
  'C11': ' Call histories: all 20 ordered pairs of curves served one after the other in fresh processes.',
- 'C13': ' Operator histories: child blocks recomputed with new virtual children and re-assembly on the same operator must be bitwise stable and equal to a fresh operator.',
- 'C15': ' Construction histories on shared tensor schemes (all constructor orders; arguments must stay bitwise untouched); box alphabets contain translates with identical side lengths.',
+ 'C13': ' Operator histories judged by the eigenvalue criterion: child blocks recomputed with new virtual children and re-assembly on the same operator; the driver lifecycle (operator created and registered on the initial mesh, bisection history applied afterwards, same operator assembles). Alternating-time meshes (spatial neighbours on two time levels).',
+ 'C15': ' Construction histories on shared tensor schemes (all constructor orders; judged by measure and moments); box alphabets contain translates with identical side lengths, zero bounds and short intervals far from the origin.',
  'C16': ' End points are looked up before the refinement that creates them in the second orientation of every targeting case.',
- 'C17': ' Pool call histories with lists mutated in place (reverse / replace / rotate) on the same operator.',
- 'C18': ' Construction histories on one curve object: every ordered pair of six space grids (incl. different grids of the same length) x two time grids.',
- 'C19': ' Every ordered pair of exponents graded one after the other on one mesh object at every state of depth <= 2 (quick) / 3 (thorough).',
- 'C20': ' Prolongate is also called on stored element lists after the mesh was refined further.',
+ 'C17': ' Pool call histories with lists mutated in place (reverse / replace / rotate) on the same operator. Square requests with equal test and different trial lists; long-list cache histories (300 / 1100 elements, middle exchanged or replaced) against one directory.',
+ 'C18': ' Construction histories on one curve object: every ordered pair of six space grids (incl. different grids of the same length) x two time grids. Vectorised eval on every order class of the alphabet (reversed, all rotations, interleaved, piece i - piece j - piece i).',
+ 'C19': ' Every ordered pair of exponents graded one after the other on one mesh object at every state of depth <= 2 (quick) / 3 (thorough). Time strips of level 8 (quick) / 8, 11, 14 (thorough) at t = 0 (exact window ties for sigma = 1.5).',
+ 'C20': ' Prolongate is also called on stored element lists after the mesh was refined further and with permuted fine lists. Custom non-uniform tensor grids (equal levels, different sizes).',
 }
+_HIST['C05'] = ' Constructor clause: every family requested by degree through the scheme constructors in one process (rule returned must be exact to the degree asked for).'
+_HIST['C12'] = ' Universes with very short end times (2^-9, 2^-11) where only the seam / corner couples survive.'
 for _k, _t in _HIST.items():
     CHECKS[_k]['level_claimed']['text'] += _t
 NOTES += ' Thorough-tier wall times measured on this 16-core sandbox (under load): C01 13 min, C02 4 min, C03 26 min, C04 1.5 min, C06 52 min, C07 7 min, C08 4 min, C09 2 min, C10 5 min, C11 5 min, C12 8 min, C13 21 min, C15 1.5 min, C16 6 min, C17 9 min, C19 11 min, C20 3 min; C05/C14/C18 under 30 s.'
